@@ -189,6 +189,11 @@ def run_history(case, props=None):
                 elif src == 'list':
                     arg = [100 + i for i in range(ncells)]
                     vals = list(arg)
+                elif src == 'mixedlist':
+                    # a list is taken as it is: element kinds survive (ints stay ints next to strings, tuples stay tuples)
+                    pool = [0, 'a', 1.5, (1, 2), None, True]
+                    arg = [pool[i % len(pool)] for i in range(ncells)]
+                    vals = list(arg)
                 elif src == 'array':
                     arg = np.arange(ncells) * 2 + 7
                     vals = [int(v) for v in arg]
@@ -247,8 +252,11 @@ def run_history(case, props=None):
                 out.append(('C11', f'after {op}: cell components {cols}, expected {sorted(expect)}'))
             for name, vals in expect.items():
                 if name in env.cells:
-                    got = [tuple(v) if isinstance(v, tuple) else (int(v) if hasattr(v, '__int__') and not isinstance(v, tuple) else v)
-                           for v in env.cells[name]]
+                    got = [tuple(v) if isinstance(v, tuple) else (int(v) if hasattr(v, '__int__') and not isinstance(v, (tuple, float, bool)) and not isinstance(vals[i_], (float, bool, str)) else v)
+                           for i_, v in enumerate(env.cells[name])]
+                    if any(type(g) is not type(e) and not (isinstance(g, int) and isinstance(e, int)) for g, e in zip(got, vals)):
+                        out.append(('C11', f'after {op}: component {name} changed the kind of its values: '
+                                           f'{[type(g).__name__ for g in got][:6]} from {[type(e).__name__ for e in vals][:6]}'))
                     if got != vals:
                         out.append(('C11', f'after {op}: component {name} holds {got[:6]}..., expected {vals[:6]}...'))
             for i, p in enumerate(pos[:4]):
@@ -256,8 +264,8 @@ def run_history(case, props=None):
                     row = env.get_cell(*p)
                     for name, vals in expect.items():
                         rv = row[name]
-                        rv = tuple(rv) if isinstance(rv, tuple) else (int(rv) if hasattr(rv, '__int__') else rv)
-                        if rv != vals[i]:
+                        rv = tuple(rv) if isinstance(rv, tuple) else (rv.item() if hasattr(rv, 'item') else rv)
+                        if rv != vals[i] and not (rv is None and vals[i] is None):
                             out.append(('C11', f'get_cell{p}[{name}] = {rv}, expected {vals[i]}'))
                 except Exception:
                     pass
@@ -302,6 +310,8 @@ def histories(seed, budget, prop='C09'):
         srcs = ['callable', 'list', 'array', 'const', 'lookup']
         for s in [x for x in SHAPES if x[1] <= 3 and x[2] <= 3 and x[3] <= 2][::3]:
             yield ('cells',) + s + ([('add', 'k', 'consttuple'), ('add', 'f', 'constfit'), ('remove', 'k')],)
+            yield ('cells',) + s + ([('add', 'm', 'mixedlist'), ('remove', 'mask'), ('add', 'mask', 'const'), ('remove', 'mask'),
+                                     ('remove', 'mask'), ('remove', 'size'), ('remove', 'values'), ('remove', 'm')],)
         for s in [x for x in SHAPES if x[1] <= 3 and x[2] <= 2 and x[3] <= 2]:
             for a, b in itertools.permutations(srcs, 2):
                 yield ('cells',) + s + ([('add', 'p', a), ('mutate', 'p'), ('add', 'q', b), ('mutate', 'q'), ('remove', 'zz'),
